@@ -254,3 +254,143 @@ Print Assumptions C10_batched_partial_overlap_refuted.
 Print Assumptions C10_slow_partial_overlap_refuted.
 Print Assumptions C10_step8.
 Print Assumptions C10_slow8.
+
+(* ================================================================== phase 5: the fast path and the headline
+   over the interpretation of the translated code.  Proofs: C10_mem.v, C10_tie_fast.v, C10_tie_xks.v,
+   C10_stream.v. *)
+From GoMC Require Import Proofs.C10_mem Proofs.C10_tie_fast Proofs.C10_tie_xks Proofs.C10_stream.
+
+(* the plain loop of the fast path as translated (for i, val = range src { cf.c.Encrypt(iv, ciphertext[i:]);
+   dst[i] = val ^ iv[0] }), interpreted from iteration k for cnt iterations on ANY memory m and iv buffer of at
+   least 16 bytes.  Decrypting: ciphertext is src (src' = C + 16) and dst' shares no byte with it.  The bytes
+   stored are the reference image of src'[k..k+cnt) continued from the 16-byte window of memory at C + k
+   (the ciphertext-as-register invariant of fast_dec_ok), stored at dst'[k..] and nowhere else; i ends at
+   k+cnt-1; iv keeps its length and its bytes from 16 on; the window after the loop is the register after
+   the ciphertext consumed *)
+Theorem C10_interp_fast_dec : forall (E : list N -> list N) (fuel : nat) (call : callee -> slc -> slc -> st -> outcome)
+    (D' S' C n L capd caps capc : Z) (livn : nat),
+  (n + 16 <= L)%Z -> 16 <= livn -> (L <= capc)%Z -> S' = (C + 16)%Z -> (D' + n <= C \/ C + L <= D')%Z ->
+  forall (cnt : nat) (m : Z -> N) (ivb : list N) (p k i0 : Z) (v0 : N) (ppb tp : Z),
+  List.length ivb = livn -> (0 <= k)%Z -> (k + Z.of_nat cnt <= n)%Z ->
+  exists ivb' i' v',
+    range_loop (run_block (exec E false fuel call) fast_body) (mkslc Arena S' n caps) k cnt
+               (fstate true D' S' C n L capd caps capc livn m ivb p i0 v0 ppb tp)
+    = ONormal (fstate true D' S' C n L capd caps capc livn
+                 (wr_mem m (D' + k)%Z (ref_dec E (rd_mem m (C + k)%Z 16) (rd_mem m (S' + k)%Z cnt))) ivb' p i' v' ppb tp)
+    /\ List.length ivb' = livn /\ skipn 16 ivb' = skipn 16 ivb
+    /\ (0 < cnt -> i' = (k + Z.of_nat cnt - 1)%Z)
+    /\ rd_mem (wr_mem m (D' + k)%Z (ref_dec E (rd_mem m (C + k)%Z 16) (rd_mem m (S' + k)%Z cnt))) (C + k + Z.of_nat cnt)%Z 16
+       = reg_after (rd_mem m (C + k)%Z 16) (rd_mem m (S' + k)%Z cnt).
+Proof.
+  intros E fuel call D' S' C n L capd caps capc livn H1 H2 H3 H4 H5.
+  exact (fast_loop E fuel call true D' S' C n L capd caps capc livn H1 H2 H3 (or_introl (conj eq_refl (conj H4 H5)))).
+Qed.
+(* encrypting: ciphertext is dst (dst' = C + 16: the loop reads back what it stored) and src' shares no byte
+   with it *)
+Theorem C10_interp_fast_enc : forall (E : list N -> list N) (fuel : nat) (call : callee -> slc -> slc -> st -> outcome)
+    (D' S' C n L capd caps capc : Z) (livn : nat),
+  (n + 16 <= L)%Z -> 16 <= livn -> (L <= capc)%Z -> D' = (C + 16)%Z -> (S' + n <= C \/ C + L <= S')%Z ->
+  forall (cnt : nat) (m : Z -> N) (ivb : list N) (p k i0 : Z) (v0 : N) (ppb tp : Z),
+  List.length ivb = livn -> (0 <= k)%Z -> (k + Z.of_nat cnt <= n)%Z ->
+  exists ivb' i' v',
+    range_loop (run_block (exec E false fuel call) fast_body) (mkslc Arena S' n caps) k cnt
+               (fstate false D' S' C n L capd caps capc livn m ivb p i0 v0 ppb tp)
+    = ONormal (fstate false D' S' C n L capd caps capc livn
+                 (wr_mem m (D' + k)%Z (ref_enc E (rd_mem m (C + k)%Z 16) (rd_mem m (S' + k)%Z cnt))) ivb' p i' v' ppb tp)
+    /\ List.length ivb' = livn /\ skipn 16 ivb' = skipn 16 ivb
+    /\ (0 < cnt -> i' = (k + Z.of_nat cnt - 1)%Z)
+    /\ rd_mem (wr_mem m (D' + k)%Z (ref_enc E (rd_mem m (C + k)%Z 16) (rd_mem m (S' + k)%Z cnt))) (C + k + Z.of_nat cnt)%Z 16
+       = reg_after (rd_mem m (C + k)%Z 16) (ref_enc E (rd_mem m (C + k)%Z 16) (rd_mem m (S' + k)%Z cnt)).
+Proof.
+  intros E fuel call D' S' C n L capd caps capc livn H1 H2 H3 H4 H5.
+  exact (fast_loop E fuel call false D' S' C n L capd caps capc livn H1 H2 H3 (or_intror (conj eq_refl (conj H4 H5)))).
+Qed.
+
+(* the WHOLE translated XORKeyStream (length tests, both pointer tests, xorKeyStream on the first block, the
+   reslices and bounds hints, the plain loop, the final copy and ivPos reset; or xorKeyStream on everything)
+   interpreted on ANY ring state (iv contents and length, position: panics included), any source, any
+   destination contents, with dst == src exactly (InPlace) or no common byte (Disjoint, either order) IS the
+   hand model's xor_key_stream (dispatch + slow + fast_dec / fast_enc): same panics; otherwise the model's iv
+   and ivPos, and memory = the memory before with the model's output stored at dst[0..len src).  No
+   hypothesis about the batched branch: on these classes the translated second test is false *)
+Theorem C10_interp_dispatch : forall (E : list N -> list N) (fuel : nat) (de : bool) (m : Z -> N)
+    (D S capd caps : Z) (src dst : list N) (st0 : state) (lc : loc),
+  (0 <= D)%Z -> (0 <= S)%Z -> (D + lenZ dst < 2 ^ 62)%Z -> (S + lenZ src < 2 ^ 62)%Z ->
+  (lenZ dst <= capd)%Z -> (lenZ src <= caps)%Z -> (Z.of_nat (pos st0) + lenZ src < 2 ^ 62)%Z ->
+  rd_mem m S (List.length src) = src ->
+  forall (al : alias) (dst0 : list N),
+  dst = dst_for al src dst0 ->
+  (al = InPlace /\ S = D) \/ (al = Disjoint /\ (D + lenZ dst <= S \/ S + lenZ src <= D)%Z) ->
+  interp_xks E false fuel (sd D capd dst) (sa S caps src) (s_in de m st0 lc)
+  = match xor_key_stream E de st0 al src dst0 with
+    | None => OPanic
+    | Some (st', out) =>
+        ONormal (mkst (wr_mem m D (firstn (List.length src) out)) (iv st') (Z.of_nat (pos st')) 16%Z de lc)
+    end.
+Proof. exact interp_xks_is_model. Qed.
+
+(* one call from any state satisfying the ring invariant: the interpretation of the translated code stores
+   exactly the reference image continued from the register, re-establishes the invariant *)
+Theorem C10_call_translated : forall (E : list N -> list N) (fuel : nat) (de : bool) (x : lcall) (st0 : state)
+    (reg : list N) (lc : loc),
+  Inv st0 reg -> laid_out x -> call_ok (lc_call x) ->
+  exists st1,
+    interp_xks E false fuel (mkslc Arena (lc_D x) (lenZ (lc_dst x)) (lc_capd x))
+               (mkslc Arena (lc_S x) (lenZ (lc_src x)) (lc_caps x))
+               (mkst (lc_mem x) (iv st0) (Z.of_nat (pos st0)) 16%Z de lc)
+    = ONormal (mkst (wr_mem (lc_mem x) (lc_D x) (cfb E de reg (lc_src x))) (iv st1) (Z.of_nat (pos st1)) 16%Z de lc)
+    /\ Inv st1 (reg_after reg (if de then lc_src x else cfb E de reg (lc_src x))).
+Proof. exact call_translated. Qed.
+
+(* THE HEADLINE over the translation: any block function, any 16-byte IV, any history of XORKeyStream calls of
+   any lengths, each with its own memory and its own permitted placement of dst and src: the translated
+   newCFB8 builds the model's initial state; the interpretation of the translated XORKeyStream never panics
+   and leaves in every dst exactly what the byte-at-a-time shift-register specification says; the
+   concatenation of what the calls stored is the reference image of the concatenated sources *)
+Theorem C10_stream_translated : forall (E : list N -> list N) (fuel : nat) (de : bool) (iv0 : list N)
+    (l : list lcall) (lc : loc) (m0 : Z -> N),
+  List.length iv0 = bs -> Forall laid_out l -> Forall call_ok (map lc_call l) ->
+  interp_new 16 de iv0 m0 = Some (mkst m0 (iv (new_state iv0)) 0%Z 16%Z de (locals nil_slc nil_slc)) /\
+  itrace E fuel (mkst m0 (iv (new_state iv0)) 0%Z 16%Z de lc) l = map Some (spec_outs E de iv0 (map lc_call l)) /\
+  written (map lc_call l) (spec_outs E de iv0 (map lc_call l)) = cfb E de iv0 (List.concat (map lc_src l)).
+Proof. exact stream_translated. Qed.
+(* and every byte outside dst[0..len src) keeps its value *)
+Theorem C10_translated_frame : forall (E : list N -> list N) (fuel : nat) (de : bool) (x : lcall) (st0 : state)
+    (reg : list N) (lc : loc) (a : Z),
+  Inv st0 reg -> laid_out x -> call_ok (lc_call x) ->
+  (a < lc_D x \/ lc_D x + lenZ (lc_src x) <= a)%Z ->
+  match interp_xks E false fuel (mkslc Arena (lc_D x) (lenZ (lc_dst x)) (lc_capd x))
+               (mkslc Arena (lc_S x) (lenZ (lc_src x)) (lc_caps x))
+               (mkst (lc_mem x) (iv st0) (Z.of_nat (pos st0)) 16%Z de lc) with
+  | ONormal s1 => x_mem s1 a = lc_mem x a
+  | _ => False
+  end.
+Proof. exact call_translated_frame. Qed.
+
+(* non-vacuity: a fast disjoint call (40 bytes, dst first) and an in-place call are laid out and call_ok *)
+Definition ex_lcalls : list lcall :=
+  [ {| lc_call := {| c_alias := Disjoint; c_src := map N.of_nat (seq 20 40); c_dst := repeat 9%N 43 |};
+       lc_mem := wr_mem (wr_mem zero_mem 4096 (repeat 9%N 43)) 4200 (map N.of_nat (seq 20 40));
+       lc_D := 4096; lc_S := 4200; lc_capd := 43; lc_caps := 40 |};
+    {| lc_call := {| c_alias := InPlace; c_src := map N.of_nat (seq 10 5); c_dst := [8; 8]%N |};
+       lc_mem := wr_mem zero_mem 4096 (map N.of_nat (seq 10 5) ++ [8; 8]%N);
+       lc_D := 4096; lc_S := 4096; lc_capd := 7; lc_caps := 5 |} ].
+Example C10_ex_laid_out : Forall laid_out ex_lcalls /\ Forall call_ok (map lc_call ex_lcalls).
+Proof.
+  split.
+  - repeat (apply Forall_cons; [unfold laid_out; repeat split; try (vm_compute; congruence); try (vm_compute; reflexivity); try (left; vm_compute; congruence)|]).
+    apply Forall_nil.
+  - repeat (apply Forall_cons; [apply PeanoNat.Nat.leb_le; reflexivity|]). apply Forall_nil.
+Qed.
+Example C10_ex_itrace :
+  map (fun r => match r with Some o => Some (List.length o, firstn 3 o) | None => None end)
+      (itrace (toyE 7) 0 (mkst zero_mem (iv (new_state ex_iv)) 0%Z 16%Z false (locals nil_slc nil_slc)) ex_lcalls)
+  = [Some (43, firstn 3 (toy_ref 7 false ex_iv (map N.of_nat (seq 20 40)))); Some (7, firstn 3 (toy_ref 7 false (reg_after ex_iv (toy_ref 7 false ex_iv (map N.of_nat (seq 20 40)))) (map N.of_nat (seq 10 5))))].
+Proof. vm_compute. reflexivity. Qed.
+
+Print Assumptions C10_interp_fast_dec.
+Print Assumptions C10_interp_fast_enc.
+Print Assumptions C10_interp_dispatch.
+Print Assumptions C10_call_translated.
+Print Assumptions C10_stream_translated.
+Print Assumptions C10_translated_frame.
